@@ -443,11 +443,7 @@ pub fn run_full(reader: MemReader, base: &str, schedule: &[u32]) -> Result<(Vec<
             }
         }
         keyed.sort_by(|a, b| {
-            if a.0 == b.0 {
-                a.1.cmp(&b.1)
-            } else {
-                a.0.cmp(&b.0)
-            }
+            (reader.get_filename(a.0), &a.1).cmp(&(reader.get_filename(b.0), &b.1))
         });
         (keyed.into_iter().map(|x| x.2).collect::<Vec<_>>(), reader, cfg_ok)
     })?;
